@@ -96,7 +96,7 @@ func matrix() []Case {
 				for _, req := range allRequested {
 					defaults := []string{""}
 					if req == "" {
-						defaults = []string{"", "access", "refresh", "id"}
+						defaults = []string{"", "access", "refresh", "id", "none"}
 					}
 					for _, def := range defaults {
 						for _, jwt := range []bool{false, true} {
